@@ -73,6 +73,15 @@ def view_concat(cur, got):
     return type(got)(n=cur.n + got.n, trail=cur.trail + got.trail)
 
 
+def view_concat_base(cur, got):
+    """like view_concat, but the folded value of a generic metric is built with the unparametrised
+    class (MG instead of MG[int]): a different runtime class for the same metric"""
+    if cur is MISSING:
+        return got
+    cls = MG if type(got).__name__.startswith("MG") else type(got)
+    return cls(n=cur.n + got.n, trail=cur.trail + got.trail)
+
+
 def view_first(cur, got):
     return got if cur is MISSING else cur
 
@@ -100,7 +109,27 @@ def _chain_plus_sibling(tier: str):
                         }
 
 
+def _heir(tier: str):
+    # a plain task created inside c0's body (it inherits c0 as its innermost scope, enters nothing)
+    # records at any time: into c0 as long as c0 has not completed - also after c0's owner has left
+    # it while a nested scope (c1, in yet another task) keeps it open - and nowhere afterwards
+    for p1 in ("spawn", "create"):
+        for nrec in (1, 2, 3):
+            for pos in itertools.combinations_with_replacement(["c0-body", "c0-heir", "c1-body"], nrec):
+                if "c0-heir" not in pos:
+                    continue
+                for opts in itertools.product((0, 1), repeat=nrec):
+                    yield {
+                        "root": "a",
+                        "children": ["inline", p1],
+                        "shape": "chain",
+                        "c0_end": "return",
+                        "records": [[p, *OPTIONS[o]] for p, o in zip(pos, opts)],
+                    }
+
+
 def programs(tier: str):
+    yield from _heir(tier)
     yield from _chain_plus_sibling(tier)
     for p in _base_programs(tier):
         yield p
@@ -179,6 +208,7 @@ def execute(program, ch: Chooser) -> Result:  # noqa: C901, PLR0915
     tick = M1(n=1, trail="t")
     raised_into_user: list = []
     reread_bad: list = []
+    heirs: list = []
     observed_order: list = []  # (record index, target scope or None)
     scopes: dict[str, dict] = {}  # name -> {"created": seq, "cb": {...}, "completed": bool}
     stacks: dict[str, list[str]] = {}  # task name -> scope stack (reference)
@@ -226,6 +256,7 @@ def execute(program, ch: Chooser) -> Result:  # noqa: C901, PLR0915
             if is_root:
                 entry["view_concat"] = metrics.metrics(merge=view_concat)
                 entry["view_first"] = metrics.metrics(merge=view_first)
+                entry["view_concat_base"] = metrics.metrics(merge=view_concat_base)
             scopes[name]["cb"] = entry
             scopes[name]["cb_seq"] = len(events)
             events.append(("completed", name))
@@ -244,6 +275,13 @@ def execute(program, ch: Chooser) -> Result:  # noqa: C901, PLR0915
             async with ctx.scope(name, completion=make_cb(name, False)):
                 stacks[me].append(name)
                 try:
+                    if any(r[0] == f"{name}-heir" for r in recs):
+
+                        async def heir(inherited=list(stacks[me]), position=f"{name}-heir"):
+                            stacks[cur_task_name()] = inherited
+                            await run_records(position)
+
+                        heirs.append(w.loop.create_task(heir(), name=f"{name}-heir-task"))
                     await run_records(f"{name}-body")
                     if c == 0 and program.get("shape") in ("chain", "chain2"):
                         place = program["children"][1]
@@ -388,7 +426,7 @@ def execute(program, ch: Chooser) -> Result:  # noqa: C901, PLR0915
             def fold(f_name):
                 return view("root", f_name)
 
-            for f_name, key in (("concat", "view_concat"), ("first", "view_first")):
+            for f_name, key in (("concat", "view_concat"), ("first", "view_first"), ("concat", "view_concat_base")):
                 got_list = scopes["root"]["cb"][key]
                 foreign = [repr(m)[:40] for m in got_list if not hasattr(m, "trail")]
                 if foreign:
